@@ -134,6 +134,27 @@ var fortune = ev.Register(&ev.P[birthCase]{
 		if yun.IsForward() != e.forward {
 			return fmt.Errorf("%s: IsForward=%v, model says %v", w, yun.IsForward(), e.forward)
 		}
+		// a second fortune object of the same chart, its start accessors read in a rotating order (each must be right
+		// whichever is asked first)
+		{
+			y2 := ec.GetYunBySect(c.Gender, c.Sect)
+			got := [4]int{-1, -1, -1, -1}
+			for k := 0; k < 4; k++ {
+				switch i := (k + t.D + t.H + t.S) % 4; i {
+				case 0:
+					got[i] = y2.GetStartYear()
+				case 1:
+					got[i] = y2.GetStartMonth()
+				case 2:
+					got[i] = y2.GetStartDay()
+				case 3:
+					got[i] = y2.GetStartHour()
+				}
+			}
+			if got != [4]int{e.y, e.m, e.d, e.h} {
+				return fmt.Errorf("%s: start offset read in rotated order (first: accessor %d) = %v, model says %dy %dm %dd %dh", w, (t.D+t.H+t.S)%4, got, e.y, e.m, e.d, e.h)
+			}
+		}
 		if yun.GetStartYear() != e.y || yun.GetStartMonth() != e.m || yun.GetStartDay() != e.d || yun.GetStartHour() != e.h {
 			return fmt.Errorf("%s: start offset %dy %dm %dd %dh, model says %dy %dm %dd %dh (prev Jie %v, next Jie %v)", w, yun.GetStartYear(), yun.GetStartMonth(), yun.GetStartDay(), yun.GetStartHour(), e.y, e.m, e.d, e.h, e.prev, e.next)
 		}
@@ -373,6 +394,21 @@ func TestC12(t *testing.T) {
 				for g := 0; g <= 1; g++ {
 					for s := 1; s <= 2; s++ {
 						fortune.Eval(birthCase{m, g, s})
+					}
+				}
+			}
+		}
+	}
+	// births whose lunar year differs from the civil year in either direction (the lunar year runs AHEAD of the civil
+	// year on the last days of AD 15 and AD 18 only), all four configurations
+	if ev.Shard == 0 {
+		for _, d := range []ref.DT{{Y: 15, M: 12, D: 30}, {Y: 15, M: 12, D: 31}, {Y: 18, M: 12, D: 27}, {Y: 18, M: 12, D: 29}, {Y: 18, M: 12, D: 31}, {Y: 19, M: 1, D: 1}, {Y: 16, M: 1, D: 1},
+			{Y: 2024, M: 1, D: 5}, {Y: 2024, M: 2, D: 9}, {Y: 1582, M: 1, D: 5}, {Y: 240, M: 1, D: 20}} {
+			for _, h := range []int{0, 11, 23} {
+				for g := 0; g <= 1; g++ {
+					for s := 1; s <= 2; s++ {
+						d.H, d.Mi = h, 20
+						fortune.Eval(birthCase{d, g, s})
 					}
 				}
 			}
